@@ -287,3 +287,22 @@ PROPS["C13"] = dict(
                  "empty operands are blocks of a non-empty parent (an array without elements has a null data pointer)", "excluded and counted (recorded known findings): level-3 operations with an extent equal to 1; gemv / dot with an empty inner dimension; herk of H(a) with contiguous rows",
                  "nrm2 and trsm are compared with a tolerance of a few ulps scaled by the size; everything else exactly"],
 )
+
+PROPS["C14"] = dict(
+    targets=[dict(name="C14potrf", src="vp/props/C14.cpp", defs=["VP_C14_R=0"], libs=["-llapack", "-lopenblas"], kinds=["rc"]),
+             dict(name="C14geqrf", src="vp/props/C14.cpp", defs=["VP_C14_R=1"], libs=["-llapack", "-lopenblas"], kinds=["rc"]),
+             dict(name="C14gesvd", src="vp/props/C14.cpp", defs=["VP_C14_R=2"], libs=["-llapack", "-lopenblas"], kinds=["rc"])],
+    quick=dict(cases=2500, floor=20000),
+    thorough=dict(cases=50000, floor=400000),
+    level="exploration",
+    level_text=("Generated inputs per routine with a reconstruction oracle: potrf (double and complex<double>): A = M M^H + n I from small integers, optionally with a planted non-positive leading "
+                "minor, n in 1..6, both fillings, row- or column-major view, padded sub-block, the unselected triangle filled with a sentinel: the returned block has the order of the first "
+                "non-positive minor - 1 (or n), the factor reproduces the selected triangle of that block within 64 eps n |A|, the other triangle and the padding are untouched. geqrf: m, n in 1..6, "
+                "padded: Q (rebuilt from the reflectors and tau) times R reconstructs the Fortran view of the input. gesvd (argument form on padded views, functional form on an array): U, VT "
+                "orthogonal, s >= 0 descending, A = U diag(s) VT, padding untouched, const input unchanged."),
+    technique="generated inputs with reconstruction-residual oracles and sentinel guards (rapidcheck)",
+    rule=("case = routine (one harness each, workers split evenly) x sizes x filling x orientation x padding x data seed; non-trivial = sizes >= 2 and (column-major, padded, rectangular or a planted "
+          "non-positive minor); distinct = hash of decoded case text"),
+    assumptions=COMMON_ASSUME[:1] + ["reference LAPACK 3.11 / OpenBLAS as installed", "gesvd: the fourth argument is V transposed (its template parameter is VTArray2D; U S VV reconstructs the input, U S VV^T does not)",
+                 "syev.hpp does not compile on the pinned tree (known finding), getrf is not claimed by the property"],
+)
